@@ -223,7 +223,13 @@ Definition walk_step (sure:N) (s:wst) (r:rout) : wst + N :=
           match w_cur s with
           | None => match d with [] => inl s | _ => inr 12 end
           | Some (rest, complete, comp, mst) =>
-              if comp then inl s   (* raw Read on a compressed message: not judged here *)
+              if comp then
+                (* raw Reads on a compressed message: the bytes are flate's business, but io.EOF must
+                   not be reported for a message that was only partly received *)
+                match e with
+                | Some RIoEOF => if complete then inl s else inr 13
+                | _ => inl s
+                end
               else if negb (is_prefix d rest) then inr 12
               else
                 let rest' := skipn (length d) rest in
